@@ -223,7 +223,13 @@ def norm_model_err(ans: dict) -> dict:
 def apply_impl(model, doc: list[dict], base: Base, yaml_text: str | None = None):
     """decl.apply on the real code. Returns ("ok", promises{pid: object}) or ("err", classification)."""
     _, decl = cap()
-    text = yaml_text if yaml_text is not None else decl.dump(to_decl(doc, base))
+    if yaml_text is None:
+        import yaml
+
+        # sort_keys=False: keep the generator's key order (decl.dump would sort every mapping, and the
+        # order of the attributes decides which unresolved promise an object description is filed under)
+        yaml_text = yaml.dump(to_decl(doc, base), Dumper=decl.YDMDumper, sort_keys=False)
+    text = yaml_text
     old = sys.getrecursionlimit()
     sys.setrecursionlimit(400)  # the sync create-branch recursion, if it diverges, should do so quickly
     try:
